@@ -8,8 +8,9 @@ _ETREE = ("hand-written model Build.v of etree v1.5.0 CreateAttr / CreateElement
 
 PROPS = {
     "C15": dict(
-        model_files=BUILD_MODEL,
+        model_files=BUILD_MODEL + ["XmlNameTables", "XmlTok", "P_XmlTok"],
         trusted_base=[KERNEL, GEN, HARNESS, _ETREE,
+                      "hand-written model XmlTok.v of the byte -> token -> tree step: encoding/xml (go1.24.0) Decoder.RawToken as etree v1.5.0 configures it (Strict, pass-through CharsetReader, no Entity map, no AutoClose) incl. isName with the two unicode range tables (XmlNameTables.v, transcribed from xml.go by tools/mkxmlnames.py; every table boundary is re-derived from the REAL decoder on each C09 run), entity expansion, CR / CRLF handling, the ]]> rule, UTF-8 and Char-range checks after expansion, <?xml?> version / encoding checks (procInst), directive scanning with quotes / nesting / comments; etree Element.readFrom (stack of open elements, end-tag check by (Space, Local), one CharData child per token - v1.5.0 does not merge -, attribute de-duplication unless PreserveDuplicateAttrs, Root() = first top-level element); token_view = what the Token() loop of xml.Unmarshal consumes (nesting check, stops at the end tag of the first element, NO CharsetReader). Nothing is outside_model. Tied to the real libraries by the xmltok stream (run under C09 and C20) (fixed cases, table boundaries, documents presented by the other streams, builder outputs, truncations / bit flips, grammar-based generator): token lists compared exactly, trees by node equality",
                       "hand-written model Build.v of buildAuthnRequest / buildLogoutRequest / buildLogoutResponse (build_request.go, build_logout_response.go); "
                       "the random request id and the clock instant are inputs",
                       "Time.v model of t.UTC().Format(issueInstantFormat) and of time.Parse(RFC3339) (TimeProofs.parse_format_utc_seconds_floor; differentially tested by timediff)",
@@ -17,7 +18,10 @@ PROPS = {
                       "character references (Escape.xml_eol_normalize / xml_unescape), which is what encoding/xml does to attribute values and character data; "
                       "the harness checks recovery with the real encoding/xml",
                       "the child-order lists of saml-schema-protocol-2.0.xsd are written by hand (P_Build.v section 6 and, independently, harness c15.go)"],
-        assumptions=["theorems are about the element trees and their serialisation by the model of etree; that /repo builds exactly these trees and etree writes exactly these bytes "
+        assumptions=["C15_written_document_reads_back: read_tree (etree_write t) = Ok (normalise t) through the REAL reader model (moved from oracle to model: tokenizer + etree tree building), for element trees of elements and character data "
+                     "whose names pass isName / nsname and whose values are valid UTF-8 in the XML Char range without U+000D (xml_wf; both premises shown necessary: C15_written_document_cr_refuted = F8, C15_lax_name_refuted); trees with comments / PIs / "
+                     "directives are outside the statement; for the AuthnRequest builder the premise is xml_wf of the built tree, for the two logout builders it is reduced to the values (wf_logout_request / wf_logout_response)",
+                     "theorems are about the element trees and their serialisation by the model of etree; that /repo builds exactly these trees and etree writes exactly these bytes "
                      "is measured by the correspondence run (bytes compared for every case), not proved",
                      "values are recovered exactly only for XML text (valid UTF-8, XML 1.0 Char range) without U+000D: C15_cr_not_preserved_refuted / known finding F8; "
                      "a reader that also applies XML 1.0 3.3.3 attribute-value normalisation turns TAB / LF in attribute-valued settings into spaces "
